@@ -16,6 +16,34 @@ THEOREMS = ["c08_one_point_per_match", "c08_only_watchers_get_rows", "c08_every_
             "c08_other_signals_unaffected", "c08_no_match_no_point", "c08_observers_never_stop_the_play"]
 
 SIG_STARTS = "actor-spotlight-not-run-exactly-once"
+# The code under test runs in a NON-UTC local time zone (a ts_log stamp has no
+# zone designator and must be read as UTC whatever the machine's zone is): a
+# whole-hour offset, a half-hour offset, zones with daylight saving time.
+ZONES = ["Asia/Tokyo", "America/St_Johns", "Europe/Berlin", "America/New_York"]
+
+
+def local_zone(seed):
+    z = ZONES[seed % len(ZONES)]
+    return z if os.path.exists(os.path.join("/usr/share/zoneinfo", z)) else None
+
+
+def zone_env(seed):
+    z = local_zone(seed)
+    return dict(os.environ, TZ=z) if z else dict(os.environ)
+
+
+def run_harness_tz(res, binpath, tier, seed):
+    """audcommon.run_harness with TZ set for the harness process."""
+    out = tempfile.mkdtemp(prefix="shk-c08-")
+    try:
+        rc, o = vlib.run([binpath, "-seed", str(seed), "-tier", tier, "-out", out], timeout=3000, env=zone_env(seed))
+        if rc != 0:
+            res.violation(None, "harness crashed", {"kind": "harness-crash", "output": o[-4000:]}, no_input=True)
+            return None
+        return (open(os.path.join(out, "cases.v")).read(), json.load(open(os.path.join(out, "cases.json"))),
+                json.load(open(os.path.join(out, "summary.json"))))
+    finally:
+        shutil.rmtree(out, ignore_errors=True)
 # A line printed immediately before the spotlight process exits during the
 # shutdown can be lost (cmd.Wait closes the pipe while the drain goroutine is
 # still reading): seen on the unchanged tree under load only, i.e. not
@@ -36,6 +64,7 @@ ASSUMPTIONS = [
     "edge numerals (1e19, -1e19, 2^63, -(2^63+1), 2^64, 1e300, 1e308, 4.9e-324, 1e-400, a 30-digit integer, -0, hexadecimal floats) are generated for scalar and delta signals: numbers (model vs implementation, CSV value vs the value read from the line) whose magnitude is 2^53 or more are compared within 2^-48 relative, and a difference of at most 2^-1073 (two denormal steps; no two distinct float64 are that close) counts as none - 4.9e-324 is stored as 2^-1074, 1e-400 as 0, 1e300 as the nearest float64",
     "ts_now rows carry the wall clock: the model takes the reception instant from the observed sigEvent; the oracle only requires it inside the [before, after] bracket of the detectSignals call and non-decreasing within a file",
     "the audition is Model/Audit.v (C02's round machine); theorems hold for plays whose audition was not stopped by an auditor's evaluation error (always so for observers only: c08_observers_never_stop_the_play); channel sends never block (large buffers in the hook)",
+    "the harness process and the real plays run with TZ set to a non-UTC zone (Asia/Tokyo, America/St_Johns, Europe/Berlin, America/New_York by seed / play): ts_log stamps carry no zone and must come out as (stamp read as UTC) - play start; in the real plays the play start is estimated from the ts_rfc3339 rows when there are any",
     "the first delta of a signal is relative to 0 (sink.lastVal's zero value), as the code does; the property's text leaves it undefined",
     "distinct ns time stamps beyond ~4e6 s can collapse to the same float64 seconds in the code's evs map; the model keys groups by exact ns (no generated case has two such stamps on one line)",
 ]
@@ -192,7 +221,7 @@ def run_e2e(res, bins, seed, nplays, immediate=False, workers=6, load_s=0):
             try:
                 p = subprocess.run([bins["shakespeare"], "-o", "out", "--disable-plots", "-q", "play.cfg"], cwd=pd,
                                    stdout=subprocess.PIPE, stderr=subprocess.STDOUT, timeout=180, text=True,
-                                   errors="replace", env=dict(os.environ, SHELL="/bin/bash"))
+                                   errors="replace", env=dict(zone_env(seed + int(name[4:])), SHELL="/bin/bash"))
                 rc, out = p.returncode, p.stdout
             except subprocess.TimeoutExpired as e:
                 rc, out = 124, "[timeout]"
@@ -255,7 +284,10 @@ def run(tier, seed):
     bins, ok = audcommon.prepare(res, names)
     if not ok:
         return res.finish()
-    r = audcommon.run_harness(res, bins["c08"], tier, seed)
+    r = run_harness_tz(res, bins["c08"], tier, seed)
+    res.coverage["local_time_zone"] = {"harness": local_zone(seed), "plays": "rotating over %s" % ZONES}
+    if local_zone(seed) is None:
+        res.notes.append("no zoneinfo for the chosen zone: the code under test ran in UTC")
     if r is None:
         return res.finish()
     cases_v, cases, summary = r
